@@ -26,7 +26,8 @@ RULE = ("one case = one simulated process with 0-60 generated mappings (start/en
         "a path, or an optional smaps line is present, or the roll-up is withheld; distinct by case hash")
 ASSUMPTIONS = [
     "smaps / smaps_rollup line formats transcribed from fs/proc/task_mmu.c and compared with the live 6.18 kernel "
-    "(header padded to column 73, '%-16s%8lu kB' but 'Private_Hugetlb: %7lu kB', THPeligible/ProtectionKey without unit, 'VmFlags: xx yy ')",
+    "(header padded to column 73, '%-16s%8lu kB' but 'Private_Hugetlb: %7lu kB', THPeligible/ProtectionKey "
+    "without unit, 'VmFlags: xx yy ')",
     "the set of optional lines is per kernel (per case), identical for every mapping of the process",
     "the roll-up is exactly consistent with the listing (integer kB sums); the kernel's sub-kB Pss precision in "
     "smaps_rollup is not modelled",
@@ -559,7 +560,7 @@ def corner_cases():
 
 
 def plan(tier, seed):
-    n = 12000 if tier == "quick" else 800_000
+    n = 12000 if tier == "quick" else 480_000
     shards = [dict(kind="corners")]
     for s, c in harness.split_range(n, 16 if tier == "quick" else 48):
         shards.append(dict(kind="gen", seed=seed, start=s, count=c))
